@@ -6,6 +6,9 @@
 typedef unsigned long size_t;
 typedef long ptrdiff_t;
 typedef long ssize_t;
+typedef long time_t;
+typedef long off_t;
+typedef long streampos_t;
 #ifndef NULL
 #define NULL 0
 #endif
